@@ -959,7 +959,7 @@ def cause_of(n):
         try:
             t0, t1 = rops[0].operands[1].get_type(), rops[1].operands[1].get_type()
             if not t0.is_same(t1):
-                return "fold:_binary_op:operands-of-different-dtype(result takes the dtype of the left operand)"
+                return MIXED
         except Exception:  # noqa: BLE001
             pass
         return f"fold:{k}(constant,constant)"
@@ -1018,14 +1018,61 @@ def value_fails(e, r, assignments):
 
 def minimal_cause(e, assignments):
     """smallest sub-expression whose own rewriting changes its value; its cause signature"""
+    typed = None
     for sub in sub_exprs(e):
         res = real_rewrite(sub)
         if res[0] != "ok" or res[1] is sub:
             continue
         f = value_fails(sub, res[1], assignments)
         if f is not None:
+            if f[0] == "fp" and sub.kind in SIGN_SENSITIVE and zero_sign_only(sub, f[1]):
+                return SIGNZERO, to_dag_safe(sub), f
+            if typed is not None and f[0] == "fp":
+                # the value changes only in floating point and a smaller sub-expression changed its dtype:
+                # the cause is the dropped / moved implicit promotion of mixed-precision operands
+                return MIXED, typed, f
             return cause_of(sub), to_dag_safe(sub), f
+        if typed is None:
+            try:
+                t0, t1 = sub.get_type(), res[1].get_type()
+                if not t0.is_same(t1) and t0.kind == "float" and t1.kind == "float":
+                    typed = to_dag_safe(sub)
+            except Exception:  # noqa: BLE001
+                pass
     return None, None, None
+
+
+SIGN_SENSITIVE = {"atan2", "copysign", "divide", "sign"}
+SIGNZERO = "sign-of-zero:a rule changes the sign of a zero operand (0 - y -> -y, x + 0 -> x) and atan2/copysign amplify it"
+
+
+def zero_sign_only(sub, envf_rec):
+    """do the operands of `sub`, rewritten on their own, differ from the originals only in the sign of a zero?"""
+    F = fa()
+    _, envf = decode_env(dict(q={}, f=envf_rec))
+    differs = False
+    for o in sub.operands:
+        if not isinstance(o, F.Expr):
+            continue
+        r = real_rewrite(o)
+        if r[0] != "ok":
+            return False
+        try:
+            w0, w1 = eval_fp(o, envf, check=False), eval_fp(r[1], envf, check=False)
+        except Undefined:
+            return False
+        if isinstance(w0, (bool, numpy.bool_)) or isinstance(w1, (bool, numpy.bool_)):
+            if bool(w0) != bool(w1):
+                return False
+            continue
+        if not (w0 == w1):
+            return False
+        if w0 == 0 and bool(numpy.signbit(w0)) != bool(numpy.signbit(w1)):
+            differs = True
+    return differs
+
+
+MIXED = "mixed-dtype:rewriting changes the dtype of a sub-expression(implicit promotion of mixed-precision operands dropped)"
 
 
 def to_dag_safe(e):
